@@ -350,7 +350,15 @@ def connector(ck):
                 return True
         return False
 
-    app = lambda m: m.kind == "stmt" and any(q.call_attr(c) == "append" and _targets_list(q.receiver(c)) for c in q.calls(m.ast))
+    def _append_to_queue(c) -> bool:
+        if q.call_attr(c) != "append" or not isinstance(c.func, ast.Attribute):
+            return False
+        rv = c.func.value
+        if isinstance(rv, ast.IfExp):  # (primary if cond else secondary).append(..)
+            return q.dotted(rv.body) in lists and q.dotted(rv.orelse) in lists
+        return _targets_list(q.receiver(c))
+
+    app = lambda m: m.kind == "stmt" and any(_append_to_queue(c) for c in q.calls(m.ast))
     # the loop visits every resolved address: it iterates the parameter itself (remaining = len(addrinfo) counts them all)
     sparam = [p_ for p_ in sp.params() if p_ not in ("self", "cls")]
     ck.need(sparam, "split() lost its addrinfo parameter")
@@ -379,7 +387,7 @@ def connector(ck):
     if 0 in body_counts and 2 not in body_counts:
         # no append seen on some path: only a finding if the loop body is fully understood
         known = all(isinstance(x, (ast.If, ast.Expr, ast.Assign, ast.AnnAssign, ast.Pass)) for x in ast.walk(ast.Module(body=lp.body, type_ignores=[])) if isinstance(x, ast.stmt))
-        calls_ok = all(q.call_attr(c_) == "append" for c_ in q.calls(ast.Module(body=lp.body, type_ignores=[])))
+        calls_ok = all(_append_to_queue(c_) for c_ in q.calls(ast.Module(body=lp.body, type_ignores=[])))
         if not (known and calls_ok):
             raise AnalysisError("split(): cannot see where an address is queued on some path of the loop body")
     ck.ob("C10.remaining-once", sp, lp, body_counts == {1}, "split() puts every address into exactly one of the two queues (appends per iteration: %s), so remaining = len(addrinfo) equals the number of attempts that can complete" % sorted(body_counts), construct="split appends per address")
